@@ -150,7 +150,7 @@ func (c *cHealth) possible(s, e int64, init hval) []hval {
 
 func TestPropConcurrent(t *testing.T) {
 	rec.Assume("concurrent: the interval oracle is necessary, not sufficient, across gates (each gate is judged on its own possible values during the request interval); schedules are whatever the Go scheduler produces with GOMAXPROCS>1 plus Gosched yields")
-	rec.Check(t, 1200, 36000, func(t *rapid.T) {
+	rec.Check(t, 1200, 30000, func(t *rapid.T) {
 		h := ihttp.NewHealthReadyHandler(nil)
 		nGates := rapid.IntRange(2, 6).Draw(t, "gates")
 		nHealth := rapid.IntRange(1, 4).Draw(t, "health")
